@@ -37,7 +37,7 @@ func (c08) Batches(tier string, seed uint64) []core.Batch {
 
 func (c08) Mandatory(tier string) []string {
 	return []string{"shape:single", "shape:multi", "shape:interior-empty", "shape:empty-run>=2", "shape:indented", "shape:trailing-empty-line", "shape:trailing-NL", "shape:no-trailing-NL",
-		"shape:empty-value", "shape:hash-line", "cycle:documents", "cycle:with-continuations", "encoder:one-by-one", "encoder:slice", "encoder:mixed-call-sequence", "encoder:empty-struct-in-sequence", "encoder:n>=2", "shape:line>=4096-bytes"}
+		"shape:empty-value", "shape:hash-line", "cycle:documents", "cycle:with-continuations", "cycle:via-Encoder", "encoder:one-by-one", "encoder:slice", "encoder:mixed-call-sequence", "encoder:empty-struct-in-sequence", "encoder:n>=2", "shape:line>=4096-bytes"}
 }
 
 type c08Field struct {
@@ -197,6 +197,22 @@ func writeDoc(ps []control.Paragraph) (string, error) {
 	return buf.String(), nil
 }
 
+// writeDocEncoder: the same paragraphs sent out through one Encoder, each wrapped in a struct that embeds it
+// (how a document type with pass-through fields is written).
+func writeDocEncoder(ps []control.Paragraph) (string, error) {
+	var buf bytes.Buffer
+	enc, err := control.NewEncoder(&buf)
+	if err != nil {
+		return "", err
+	}
+	for i := range ps {
+		if err := enc.Encode(pWrap{ps[i]}); err != nil {
+			return "", err
+		}
+	}
+	return buf.String(), nil
+}
+
 func parasToRef(ps []control.Paragraph) []model.RefPara {
 	var out []model.RefPara
 	for _, g := range ps {
@@ -231,10 +247,15 @@ func (p c08) cycleText(c *core.C, text string, excluded bool) {
 	c.Cover("cycle:documents")
 	ref := parasToRef(ps)
 	prevText := ""
+	viaEncoder := len(text)%3 == 0
 	for cycle := 1; cycle <= 4; cycle++ {
 		out, err := writeDoc(ps)
+		if viaEncoder {
+			out, err = writeDocEncoder(ps)
+			c.Cover("cycle:via-Encoder")
+		}
 		if err != nil {
-			c.Failf("cycle %d: WriteTo failed: %v", cycle, err)
+			c.Failf("cycle %d: writing failed (via Encoder: %v): %v", cycle, viaEncoder, err)
 			return
 		}
 		for _, para := range strings.Split(out, "\n\n") {
